@@ -32,13 +32,15 @@ def split(ob, **dims):
 
 
 def sample(ob_, k_, seed=1, **dims):
-    """A deterministic sample of `k_` cells of the product of the named dimensions (fixed seed: the same cells on every run).
+    """A deterministic sample of `k_` cells of the product of the named dimensions (fixed seed, shifted by VERIF_SEED).
     Used where the full product of fully pinned cells is out of reach; the evidence lists exactly which cells were run."""
     import itertools
     import random
     names = list(dims)
     combos = list(itertools.product(*[dims[n] for n in names]))
-    rnd = random.Random(seed)
+    import os
+    # VERIF_SEED (if the caller sets one) shifts the sample: the same seed gives the same cells, another seed other cells
+    rnd = random.Random(seed + 1000 * int(os.environ.get('VERIF_SEED', '0') or 0))
     if k_ < len(combos):
         combos = rnd.sample(combos, k_)
     out = []
